@@ -36,7 +36,7 @@ func encodeBoth(what string, size func() uint64, enc func(*bytes.Buffer) error, 
 	if swFirst {
 		// the slice-writer path sees the structure first (trun optimisation happens inside it); the buffer has
 		// the size announced beforehand, which is never smaller than what is needed
-		sw := bits.NewFixedSliceWriter(int(before))
+		sw := boxprop.DirtySW(int(before))
 		errS := encSW(sw)
 		if errS == nil {
 			errS = sw.AccError()
@@ -59,7 +59,7 @@ func encodeBoth(what string, size func() uint64, enc func(*bytes.Buffer) error, 
 		if !bytes.Equal(buf.Bytes(), first) {
 			return nil, harness.Failf("C02|"+what+"|Encode after EncodeSW gives different bytes", "%d vs %d bytes, first difference at %d", buf.Len(), len(first), firstDiff(buf.Bytes(), first))
 		}
-		sw2 := bits.NewFixedSliceWriter(int(size()))
+		sw2 := boxprop.DirtySW(int(size()))
 		if err := encSW(sw2); err != nil || sw2.AccError() != nil || !bytes.Equal(sw2.Bytes(), first) {
 			return nil, harness.Failf("C02|"+what+"|second EncodeSW differs from the first", "err %v/%v, %d vs %d bytes, first difference at %d", err, sw2.AccError(), sw2.Len(), len(first), firstDiff(sw2.Bytes(), first))
 		}
@@ -77,7 +77,7 @@ func encodeBoth(what string, size func() uint64, enc func(*bytes.Buffer) error, 
 	if !optimise && before != after {
 		return nil, harness.Failf("C02|"+what+"|Size() changed by Encode without optimisation", "before %d after %d", before, after)
 	}
-	sw := bits.NewFixedSliceWriter(int(size()))
+	sw := boxprop.DirtySW(int(size()))
 	errS := encSW(sw)
 	if errS == nil {
 		errS = sw.AccError()
@@ -218,7 +218,7 @@ func checkSizes(c boxprop.Case) *harness.Fail {
 	if uint64(whole.Len()) != total {
 		return harness.Failf("C02|File(segment mode)|bytes written differ from the sum of the parts' Size()", "written %d, init+sidx+segments+mfra %d", whole.Len(), total)
 	}
-	sw := bits.NewFixedSliceWriter(whole.Len())
+	sw := boxprop.DirtySW(whole.Len())
 	if err := f.EncodeSW(sw); err != nil || sw.AccError() != nil || !bytes.Equal(sw.Bytes(), whole.Bytes()) {
 		return harness.Failf("C02|File(segment mode)|EncodeSW differs from Encode", "err %v/%v, %d vs %d bytes", err, sw.AccError(), sw.Len(), whole.Len())
 	}
